@@ -493,6 +493,10 @@ func ExecuteSchedule(leg MuxLeg, plan *MuxPlan, sched []MuxAction) *MuxResult {
 				// The reader did not pick the frame up. If an earlier deliver is
 				// still in progress the stall was reported there; otherwise the
 				// reader is stuck somewhere unknown.
+				if d := LockDeadlock("lib/go.(*fRegistryImpl)"); d != "" {
+					stall(fmt.Sprintf("step %d %s: registry lock deadlock: %s", step, a, d))
+					return res
+				}
 				stall(fmt.Sprintf("step %d %s: reader did not process an injected frame", step, a))
 				return res
 			}
